@@ -77,19 +77,18 @@ def _gen_step(rng, sim, removed_pool, failing, tags):
         return {"op": "add", "line": l, "as": rng.choice(["str", "line"])}
     if k < 0.80 and named:
         n, r = rng.choice(named)
-        if r.rt in ("L", "C"):
-            return None
         fresh = [f for f in FRESH if f not in sim.names()]
-        if rng.random() < 0.3:
+        if rng.random() < 0.3 and r.rt not in ("L", "C"):
             # onto an identifier which is mentioned but not defined (the renamed line takes the
             # place of the placeholder)
-            fresh = sorted({m for x in sim.recs for m, role in T.mentions(x) if m not in sim.names()}) or fresh
+            fresh = sorted({m for x in sim.recs for m, role in T.mentions(x)
+                            if m and m not in sim.names() and S.fm("id2", m)}) or fresh
         if not fresh:
             return None
         new = rng.choice(fresh)
         if sim.version == "gfa1" and r.rt in ("S", "P") and not S.fm("name1", new):
             return None
-        return {"op": "rename", "name": n, "new": new, "rt": r.rt}
+        return {"op": "rename", "name": n, "new": new, "rt": r.rt, "text": r.text()}
     if sim.recs:
         r = rng.choice([x for x in sim.recs if x.rt not in ("#",)] or sim.recs)
         if r.rt == "#":
@@ -99,9 +98,19 @@ def _gen_step(rng, sim, removed_pool, failing, tags):
             return None
         if r.tags and rng.random() < 0.4:
             t = rng.choice(r.tags)
-            if t[0] in ("ID", "LN", "VN"):
+            if t[0] in ("LN", "VN") or (t[0] == "ID" and r.rt not in ("L", "C")):
                 return None
             return {"op": "deltag", "name": n, "text": r.text(), "tag": t[0], "rt": r.rt}
+        if r.rt in ("L", "C") and sim.version == "gfa1" and n is None and rng.random() < 0.5:
+            # a link/containment gets an identifier (fresh, or one which is in use)
+            fresh = [f for f in FRESH if f not in sim.names()]
+            used = list(sim.names())
+            if used and rng.random() < 0.35:
+                return {"op": "settag", "name": None, "text": r.text(), "tag": "ID", "dt": "Z",
+                        "value": rng.choice(used), "rt": r.rt}
+            if fresh:
+                return {"op": "settag", "name": None, "text": r.text(), "tag": "ID", "dt": "Z",
+                        "value": rng.choice(fresh), "rt": r.rt}
         dt = rng.choice("ifZ")
         tn = V.tagname(rng, used=[t[0] for t in r.tags])
         return {"op": "settag", "name": n, "text": r.text(), "tag": tn, "dt": dt,
@@ -185,11 +194,9 @@ def _gen_failing_step(rng, sim, named):
         return {"op": "add", "line": line, "as": rng.choice(["str", "line"]), "expect": "model"}
     if k < 0.55 and len(named) >= 2:
         (n1, r1), (n2, r2) = rng.sample(named, 2)
-        if r1.rt in ("L", "C"):
-            return None
         if v == "gfa1" and r1.rt in ("S", "P") and not S.fm("name1", n2):
             return None
-        return {"op": "rename", "name": n1, "new": n2, "rt": r1.rt, "expect": "model"}
+        return {"op": "rename", "name": n1, "new": n2, "rt": r1.rt, "expect": "model", "text": r1.text()}
     if k < 0.60:
         return {"op": "rm", "how": "name", "name": rng.choice(["nosuch", "*", "", "?"]), "rt": "?",
                 "text": "", "expect": "fail"}
@@ -453,6 +460,17 @@ def run_history(case, ctx, compare_every=True):
         if verdict == "skip" or verdict == "unspec":
             ctx.count("steps_skipped_" + verdict)
             continue
+        if verdict == "ok" and st["op"] == "rename" and st.get("rt") != "S":
+            # a placeholder keeps the record type it was given by a line which mentioned it in
+            # another role and has been removed since: that type is not part of the written
+            # content, the model cannot know it, and the rename may legitimately be refused
+            try:
+                ph = g.line(st["new"])
+            except Exception:
+                ph = None
+            if ph is not None and ph.virtual and ph.record_type not in ("\n", st.get("rt")):
+                ctx.count("steps_skipped_typed_placeholder")
+                continue
         expect_fail = verdict in ("dup", "fail")
         before = O.obs(g) if expect_fail else None
         out = do_step(ctx, g, st, version, vlevel)
@@ -500,6 +518,8 @@ def run_history(case, ctx, compare_every=True):
         shape.append(st["op"] + ":" + (st.get("rt") or st["line"].split("\t")[0]) + (":cascade%d" % removed if removed else ""))
         if removed and removed >= 2:
             ctx.count("cascading_removals")
+        # ---- C09: every identifier of the model is looked up to the record which carries it
+        _lookup_oracle(ctx, g, model, st, si, version)
         # ---- C05: content == text the history denotes
         if model.unspecified_state():
             ctx.count("unspecified_states")
@@ -530,6 +550,68 @@ def run_history(case, ctx, compare_every=True):
     return shape
 
 
+def _lookup_oracle(ctx, g, model, st, si, version):
+    """the identifiers which the text model holds after the step, against the lookups of the Gfa
+    (names, line(), segment()): each is listed once and found as a real line which writes the
+    record of the model; an identifier which the step freed is not found (or only as placeholder)."""
+    want = model.names()
+    try:
+        listed = list(g.names)
+    except Exception as e:
+        ctx.violation("names-raises/%s" % type(e).__name__, "after step %d %r" % (si, st), prop="C09")
+        return
+    ctx.count("lookup_oracle_evaluations")
+    for n, rec in want.items():
+        ctx.count("lookups")
+        c = listed.count(n)
+        if c != 1:
+            ctx.violation("names-count/%s/%s/%d" % (st["op"], rec.rt, min(c, 2)),
+                          "after step %d %r: identifier %r is listed %d times in names" % (si, st, n, c),
+                          prop="C09")
+            return
+        try:
+            l = g.line(n)
+        except Exception as e:
+            ctx.violation("lookup-raises/%s" % type(e).__name__, "line(%r) after step %d %r" % (n, si, st), prop="C09")
+            return
+        if l is None or l.virtual:
+            ctx.violation("lookup-misses/%s/%s" % (st["op"], rec.rt),
+                          "after step %d %r: line(%r) returns %s, the model holds %r"
+                          % (si, st, n, "a placeholder" if l is not None else None, rec.text()), prop="C09")
+            return
+        if rec.rt in ("O", "U") and not rec.pos[1].strip():
+            continue                # an emptied group: how it is written is UNSPECIFIED
+        if S.canon_doc([O.safe_str(l)], version, split_headers=False) != \
+                S.canon_doc([rec.text()], version, split_headers=False):
+            ctx.violation("lookup-wrong-line/%s/%s" % (st["op"], rec.rt),
+                          "after step %d %r: line(%r) returns %r, the model holds %r"
+                          % (si, st, n, O.safe_str(l), rec.text()), prop="C09")
+            return
+        if rec.rt == "S" and g.segment(n) is not l:
+            ctx.violation("segment-lookup-differs/%s" % st["op"], "after step %d %r: segment(%r) is not line(%r)"
+                          % (si, st, n, n), prop="C09")
+            return
+    freed = None
+    if st["op"] == "rename":
+        freed = st["name"]
+    elif st["op"] == "rm":
+        freed = st.get("name")
+    elif st["op"] == "deltag" and st["tag"] == "ID":
+        freed = st.get("name")
+    if freed is not None and freed not in want:
+        try:
+            l = g.line(freed)
+        except Exception:
+            l = None
+        ctx.count("freed_lookups")
+        if l is not None and not l.virtual:
+            ctx.violation("freed-identifier-found/%s" % st["op"],
+                          "after step %d %r: line(%r) still returns %r" % (si, st, freed, O.safe_str(l)), prop="C09")
+        elif freed in listed and not any(m == freed for x in model.recs for m, role in T.mentions(x)):
+            ctx.violation("freed-identifier-listed/%s" % st["op"],
+                          "after step %d %r: %r is still listed in names" % (si, st, freed), prop="C09")
+
+
 def _mx(missing, extra):
     if missing and not extra:
         return "missing-" + missing[0][0]
@@ -557,6 +639,8 @@ def _fail_class(st, model):
         if st.get("expect") == "fail":
             return "rename-to-invalid/" + st.get("rt", "?")
         return "rename-to-used/" + st.get("rt", "?")
+    if st["op"] == "settag":
+        return "identifier-tag-to-used/" + st.get("rt", "?")
     if st["op"] == "rm":
         return "rm-unknown"
     if st["op"] == "setfield":
@@ -569,7 +653,7 @@ def _dup_types(model, st):
         rec = S.parse_line(st["line"], model.version)
         prev = model.by_name(T.ident(rec))
         return rec.rt, (prev.rt if prev else "?")
-    prev = model.by_name(st["new"])
+    prev = model.by_name(st["new"] if st["op"] == "rename" else st.get("value"))
     return st.get("rt", "?"), (prev.rt if prev else "?")
 
 
@@ -586,6 +670,12 @@ def _apply_model_preview(model, st):
         return "skip"
     if op == "rename":
         return rename_verdict(model, r, st["new"])
+    if op == "settag" and st["tag"] == "ID" and r.rt in ("L", "C"):
+        other = model.by_name(st["value"])
+        if other is not None and other is not r:
+            return "dup"
+        if any(m == st["value"] for x in model.recs for m, role in T.mentions(x)):
+            return "unspec"         # the identifier of a link cannot stand for a segment
     return "ok"
 
 
